@@ -61,6 +61,10 @@ def run_protocol(seq, spread):
             return orig(addr)
         obj.reboot_detected = wrapper
     for m, (t, j) in zip(seq, spread):
+        if m.get("op") in ("prot_stop", "prot_start"):     # the stack itself is stopped / started: what it remembers of its peers stays
+            fn = st.prot.stop if m["op"] == "prot_stop" else st.prot.start
+            st.loop.inject(t, (lambda o=m["op"], f=fn: st.call({"op": o}, f)), j)
+            continue
         ev = {"op": "rx", "src": m["src"], "mc": m["mc"], "sid": m["sid"], "rb": m["rb"], "uc": m.get("uc", True),
               "es": m.get("es", [])}
         st.loop.inject(t, (lambda e=ev: st.rx(e)), j)
@@ -108,6 +112,18 @@ def protocol_traces(seed, count, length):
     for n in range(count):
         rng = random.Random("c07p/%s/%s" % (seed, n))
         seq = gen_sequence(rng, length, n % 2 == 0)
+        # now and then the stack is stopped and started again in between (half of the histories)
+        if n % 2:
+            up = rng.random() < 0.5
+            if up:
+                seq.insert(0, {"op": "prot_start"})
+            k = 1
+            while k < len(seq):
+                if rng.random() < 0.15:
+                    seq.insert(k, {"op": "prot_stop" if up else "prot_start"})
+                    up = not up
+                    k += 1
+                k += 1
         t, spread = 0, []
         for m in seq:
             dt = rng.choice([0, 0, 1])
@@ -116,6 +132,8 @@ def protocol_traces(seed, count, length):
             if dt == 0 and spread:
                 j = max(j, spread[-1][1])
             spread.append((t, j))
+            if "op" in m:
+                continue
             m["uc"] = rng.random() > 0.1
             m["es"] = rng.choice([[], [], [{"ty": "offer", "svc": "s1", "ttl": 3, "opts": []}],
                                   [{"ty": "find", "svc": "f1", "ttl": 3, "opts": []}]])
